@@ -3,6 +3,7 @@ import RTV.Lemmas.Format
 import RTV.Lemmas.Percent
 import RTV.Lemmas.FormatRead
 import RTV.Model.NumCfg
+import RTV.Gen.NumDigits
 /-!
 # C03 — numeric literals resolve to exactly the number written, in every culture
 
@@ -310,6 +311,14 @@ theorem number_literal_general (tab : DigitTab) (ht : tab.Ascii) (c : Culture) (
 theorem zero_fraction_witness :
     isOkStr (digitResolution 15 asciiDigits en.sep en.longFormat [48, 46, 48]) [48, 69, 45, 53, 53] = true := by
   decide +kernel
+
+/-- The literals the model takes from the *code* rather than from tables are regenerated as well and must agree:
+`Constants.NO_BREAK_SPACE`, `Decimal(0.1)` of the running interpreter, and the `prec` of the `@precision` decorator
+on `_get_digital_value` (the theorems above are stated for that precision). -/
+theorem constants_regenerated :
+    NBSP = RTV.Gen.NumDigits.noBreakSpace ∧
+    Dec.pointOne = ⟨false, RTV.Gen.NumDigits.pointOneCoeff, RTV.Gen.NumDigits.pointOneExp⟩ ∧
+    RTV.Gen.NumDigits.digitalValuePrec = 15 := by decide
 
 /-- Beyond the precision: a 16-digit integer is rounded once, half-even, to 15 digits … -/
 theorem digital_round16 :
